@@ -1,4 +1,5 @@
 import MpsVerif.Model.Tee
+import MpsVerif.Legacy.Tee
 import MpsVerif.Core.Validate
 import MpsVerif.Drv.Util
 /-! Trace-validation driver for the `tee` model (`drv tee`).
@@ -17,6 +18,12 @@ instance : BEq State where
       && a.linked == b.linked && a.put == b.put && a.popped == b.popped && a.lock == b.lock
       && (List.range 16).all (fun f => a.forks f == b.forks f)
       && (List.range 64).all (fun j => a.cnt j == b.cnt j)
+
+def sysOf (stp : State → Act → Option State) : LSys State Act Act :=
+  { step := stp
+    label := fun a => some a
+    taus := fun _ => []
+    cands := fun _ e => [e] }
 
 def sys (c : Cfg) : LSys State Act Act :=
   { step := step c
@@ -71,6 +78,7 @@ def mkCfg (kv : List (String × String)) : Cfg :=
     fail := Drv.getN kv "fail" == 1 }
 
 structure St where
+  legacy : Bool := false
   id : String := ""
   cfg : Cfg := mkCfg []
   ss : List State := []
@@ -102,7 +110,7 @@ partial def loop (h : IO.FS.Stream) (st : St) : IO Unit := do
   let ws := Drv.words line
   match ws with
   | "case" :: id :: rest =>
-    loop h { id := id, cfg := mkCfg (Drv.kvs rest), ss := [init], k := 0, dead := false }
+    loop h { legacy := st.legacy, id := id, cfg := mkCfg (Drv.kvs rest), ss := [init], k := 0, dead := false }
   | "e" :: name :: fs :: rest =>
     if st.dead then loop h st else
     let args := rest.filterMap String.toNat?
@@ -112,12 +120,13 @@ partial def loop (h : IO.FS.Stream) (st : St) : IO Unit := do
       let spin := match st.ss.head? with
         | some s => isSpin st.cfg s ev.act
         | none => false
-      let ss' := vstep (sys st.cfg) 0 Ev.act keep st.ss ev
+      let S := if st.legacy then sysOf (Legacy.stepL st.cfg) else sys st.cfg
+      let ss' := vstep S 0 Ev.act keep st.ss ev
       if ss'.isEmpty then
         let descr := match st.ss.head? with
           | some s => describe st.cfg s
           | none => "-"
-        let why := if (obsStep (sys st.cfg) st.ss ev.act).isEmpty then "not enabled" else "payload differs"
+        let why := if (obsStep S st.ss ev.act).isEmpty then "not enabled" else "payload differs"
         IO.println s!"REJECT {st.id} {st.k} event `{name} {fs} {rest}` {why} in model state {descr}"
         loop h { st with dead := true }
       else loop h { st with ss := ss', k := st.k + 1, nspin := st.nspin + (if spin then 1 else 0) }
@@ -140,5 +149,9 @@ partial def loop (h : IO.FS.Stream) (st : St) : IO Unit := do
   | _ => loop h st
 
 def main : IO Unit := do loop (← IO.getStdin) {}
+
+/-- `drv tee-legacy`: the same replay against the model of the pinned code (`Legacy/Tee.lean`);
+    used as a recogniser: "the implementation behaves like the defective pinned code again" -/
+def mainLegacy : IO Unit := do loop (← IO.getStdin) { legacy := true }
 
 end Tee.Drv
